@@ -98,7 +98,7 @@ def build_worker(tmp, flavour):
     ov = make_overlay(tmp, flavour)
     out = os.path.join(tmp, "worker_" + flavour)
     cmd = [GO, "test", "-c", "-vet=off", "-overlay", ov, "-o", out]
-    if flavour == "race":
+    if flavour in ("race", "plainrace"):
         cmd += ["-race", "-gcflags=all=-d=checkptr=0"]
     if flavour == "instr":
         cmd += ["-tags", "simrt"]
@@ -308,6 +308,26 @@ def run_check(prop, tier):
             death_violations += rdv
             unconfirmed += runc
             harness_trouble += rht
+        # ---- optional third phase: the plain worlds (real goroutines inside the fake-clock bubble: cron
+        # loops, the JS watchdog, concurrent bursts) in a -race binary.  The interleaving is the Go
+        # runtime's, not the simulator's, so a report may not repeat; it is sound all the same.
+        prace_cfg = T.get("prace")
+        if prace_cfg:
+            pworker, pb = build_worker(tmp, "plainrace")
+            log("built plain race worker in %.1fs" % pb)
+            build_s += pb
+            ptmp = os.path.join(tmp, "prace")
+            os.makedirs(ptmp, exist_ok=True)
+            penv = dict(base_env, VERIF_RUNS=str(prace_cfg["runs"]), VERIF_BUDGET_S=str(prace_cfg["budget_s"]),
+                        VERIF_RACE_LOG=os.path.join(ptmp, "racelog"), GOMAXPROCS="8",
+                        GORACE=GORACE_OPTS % os.path.join(ptmp, "racelog"))
+            if prace_cfg.get("worlds"):
+                penv["VERIF_WORLDS"] = ",".join(prace_cfg["worlds"])
+            ps_, pdv, punc, pht = execute_shards(pworker, penv, nshards, ptmp, prace_cfg["budget_s"], prop)
+            shards = shards + ps_
+            death_violations += pdv
+            unconfirmed += punc
+            harness_trouble += pht
         # ---- merge
         sums = []
         for s in shards:
@@ -388,6 +408,8 @@ def run_check(prop, tier):
             "distinct_measure": P.get("distinct_measure", "distinct (operation kind or observation, canonical reference-model state) pairs reached in non-trivial runs"),
             "components": P.get("components", {}),
             "build": flavour,
+            "plain_race_phase": ({"build": "go test -race (plain worlds: real goroutines, interleaving not controlled)", "planned_runs": prace_cfg["runs"],
+                                  "worlds": prace_cfg.get("worlds") or "all"} if prace_cfg else None),
             "race_phase": ({"build": "go test -race -tags 'simrt simrace' (pipe-gate scheduler)", "planned_runs": race_cfg["runs"],
                             "executions": int(counters.get("race_detector_executions", 0)), "worlds": race_cfg.get("worlds") or "all"} if race_cfg else None),
             "known_findings_seen": known_seen,
@@ -465,7 +487,10 @@ def run_replay(path):
     tmp = tempfile.mkdtemp(prefix="verif-replay-", dir=os.environ.get("VERIF_TMPROOT", "/tmp"))
     try:
         race = rp["violation"]["class"] == "data-race"
-        worker, _ = build_worker(tmp, "race" if race else P.get("build", "plain"))
+        flav = P.get("build", "plain")
+        if race:
+            flav = "race" if flav == "instr" and rp["plan"].get("world") not in ((P["tiers"]["quick"].get("prace") or {}).get("worlds") or []) else "plainrace"
+        worker, _ = build_worker(tmp, flav)
         env = dict(ENV, VERIF_PROP=prop, VERIF_REPLAY=os.path.abspath(path), VERIF_TMP=tmp,
                    VERIF_KNOWN=os.path.join(VERIF, "known_findings.jsonl"), GOMAXPROCS="2", GOTRACEBACK="single")
         if race:
